@@ -217,6 +217,8 @@ def _thread_body(k, t, sh):
         msgs.append({"role": "user", "content": "m%d.2" % k})
     if sh == 3:
         body["context"] = {"k": k}
+    if sh == 4:
+        body["state"] = {}
     body["messages"] = msgs
     return body
 
@@ -354,7 +356,7 @@ def _emit_universe(ctx, setup_file):
     runs = []  # (name, famkey, cfg)
     for (pf, pt) in [(0, 1)] + [(i, i) for i in range(2, 10)]:
         runs.append(("chars%d" % pf, "N", _pm_cfg("chars", maxlen, 1, 0, pf, pt, False, True, ["EmitLine"])))
-    for v in range(1, 7):
+    for v in range(1, 9):
         runs.append(("comps%d" % v, "N", _pm_cfg("comps", 0, maxcomps, 0, v, v, False, True, ["EmitLine"])))
     runs.append(("lists", "N", _pm_cfg("lists", 0, 1, maxlist, 0, 99, False, True, ["EmitLine"])))
     runs.append(("s_comps", "S", _pm_cfg("comps", 0, 2, 0, 0, 99, True, True, ["EmitLine"])))
@@ -564,7 +566,7 @@ def _validate_traces(ctx, traces, tag="trace"):
 def _thread_part(ctx, root, pool):
     n = 4 if ctx.quick else 5
     invs = ["Owned", "Ordered", "Complete", "UsedExact", "ShortUntouched"]
-    ctx.log("TLC: thread store, all request sequences <= %d (11 request kinds)" % n)
+    ctx.log("TLC: thread store, all request sequences <= %d (12 request kinds)" % n)
     m = tlc.run("MC_Server.tla", _server_cfg("mc", n, 1, 99, invs, ["OnlyOwn", "SameNext"]), ctx.sub("server_mc"),
                 spec_dirs=[SPEC_DIR], workers=16, timeout=3000, expect_fail=True)
     design = {i: ("violated" if i in m.violated else "holds") for i in invs + ["OnlyOwn"]}
@@ -577,7 +579,7 @@ def _thread_part(ctx, root, pool):
 
     exp = {}
     with ThreadPoolExecutor(16) as ex:
-        for r in ex.map(emit, range(1, 12)):
+        for r in ex.map(emit, range(1, 13)):
             for p in r.printed:
                 if "h" in p:
                     exp[tuple(p["h"])] = p
@@ -780,8 +782,8 @@ def run(ctx):
             "evaluations": cfg["requests"] + thr["requests"] + con["events"],
             "distinct_nontrivial": cfg["nontrivial"] + thr["nontrivial"] + con["overlapping"],
             "rule": "config ids: every string of length <= %d over {a . / \\ %% 2 e ~ -} as config_id, every id built from 1..%d "
-                    "components of {.., ., '', a, aa, e, e2, %%2e%%2e, ~, a-a, ...} in 6 variants (relative, /, //, <root>/, "
-                    "<parent>/, backslash-joined), config_ids lists of length <= %d over 18 ids; families F1 (cache cleared), "
+                    "components of {.., ., '', a, aa, e, e2, %%2e%%2e, ~, a-a, ...} in 8 variants (relative, /, //, <root>/, "
+                    "<parent>/, backslash-joined, joined by %%2f / %%2F), config_ids lists of length <= %d over 18 ids; families F1 (cache cleared), "
                     "F2 (cache kept, every chunk sent twice), F3 (single-config mode), F4 (no default id); a case is one "
                     "(family, request); non-trivial = not a single plain name (separator, dot sequence, %%, ~, empty, absolute, "
                     "or a list). threads: every request sequence of length %d over 3 thread ids x 3 shapes + no-thread + "
